@@ -52,7 +52,12 @@ def main():
     try:
         env = dict(os.environ, PYTHONPATH=wt, MPLBACKEND="Agg", PYTHONHASHSEED="0")
         env.pop("VF_PINNED", None)
-        demo = os.path.join(os.path.abspath(args.src), "demo.py")
+        # the demo runs from where the seeder wrote it: <worktree>/seed_out/<mK>/demo.py (some locate repository files
+        # relative to their own path); seed_out is untracked, so it does not disturb `git apply`
+        demo_dir = os.path.join(wt, "seed_out", os.path.basename(os.path.abspath(args.src)))
+        os.makedirs(demo_dir, exist_ok=True)
+        demo = os.path.join(demo_dir, "demo.py")
+        shutil.copy(os.path.join(os.path.abspath(args.src), "demo.py"), demo)
         env["NUMBA_CACHE_DIR"] = os.path.join(wt, ".nb_pristine")
         p0 = run([sys.executable, demo], wt, env)
         res["demo_pristine_exit"] = p0.returncode
